@@ -347,3 +347,67 @@ Proof.
   intros o H. destruct o; cbn in *; try exact I;
     apply Forall_forall; intros w Hin; rewrite forallb_forall in H; apply H, Hin.
 Qed.
+
+(** ---- statements over whole histories, as quoted by Props/C01.v ---- *)
+Lemma conservation_all : forall xs ops, wf_init xs ->
+  Forall (fun l => Permutation (acc l) (wire_of l ++ lost_of l ++ map cpy_of (queue l)))
+         (exec (init xs) ops).
+Proof.
+  intros xs ops H. eapply Forall_impl; [intros l Hl; apply inv_conservation, Hl|apply exec_inv, init_inv, H].
+Qed.
+
+Lemma fifo_all : forall xs ops, wf_init xs ->
+  Forall (fun l => subseq (wire_of l) (acc l) /\
+                   exists done, acc l = done ++ map cpy_of (queue l) /\ subseq (wire_of l) done)
+         (exec (init xs) ops).
+Proof.
+  intros xs ops H. eapply Forall_impl; [|apply exec_inv, init_inv, H].
+  intros l Hl. split; [apply inv_fifo, Hl|apply inv_queue_suffix, Hl].
+Qed.
+
+Lemma unique_once : forall xs ops j, (j < length xs)%nat ->
+  uniques (nth j (exec (init xs) ops) dlink) = routed_to j ops.
+Proof.
+  intros xs ops j Hj. rewrite exec_uniques by (unfold init; rewrite map_length; exact Hj).
+  unfold uniques at 1. rewrite init_nth_acc. reflexivity.
+Qed.
+
+Lemma bounded_hold_all : forall xs ops, wf_init xs ->
+  Forall (fun l => has_io l = true -> blen (queue l) < 32) (exec (init xs) ops).
+Proof.
+  intros xs ops H. eapply Forall_impl; [|apply exec_inv, init_inv, H].
+  intros l Hl Hio. apply hold_32; assumption.
+Qed.
+
+Lemma flush_tick_empties : forall xs ops now orc,
+  Forall (fun l => has_io l = true -> queue l = []) (exec (init xs) (ops ++ [FlushTick now orc])).
+Proof. intros. rewrite exec_app. cbn [exec]. apply step_flush_empties. Qed.
+
+Lemma probe_rate_window : forall xs ops1 ops2 j, wf_init xs -> (j < length xs)%nat ->
+  let l1 := nth j (exec (init xs) ops1) dlink in
+  let l2 := nth j (exec (init xs) (ops1 ++ ops2)) dlink in
+  0 <= nprobes l2 - nprobes l1 <= (routed_data ops2 + 99) / 100.
+Proof.
+  intros xs ops1 ops2 j Hx Hj l1 l2. subst l1 l2. rewrite exec_app.
+  assert (Hinv : Forall inv (exec (init xs) ops1)) by (apply exec_inv, init_inv, Hx).
+  assert (Hlen : (j < length (exec (init xs) ops1))%nat)
+    by (rewrite exec_length; unfold init; rewrite map_length; exact Hj).
+  destruct (exec_potential ops2 _ j Hinv Hlen) as [H1 H2].
+  pose proof (Forall_nth_inv _ _ Hinv Hlen) as (_ & Hc1 & _).
+  pose proof (Forall_nth_inv _ _ (exec_inv ops2 _ Hinv)
+                (eq_ind_r (fun n => (j < n)%nat) Hlen (exec_length ops2 _))) as (_ & Hc2 & _).
+  unfold potential, ctr_ok in *. rewrite probe_n_100 in *. lia.
+Qed.
+
+(** a window of fewer than 100 routed data packets holds at most one probe copy per link *)
+Lemma probe_rate_100 : forall xs ops1 ops2 j, wf_init xs -> (j < length xs)%nat ->
+  routed_data ops2 <= 100 ->
+  nprobes (nth j (exec (init xs) (ops1 ++ ops2)) dlink) - nprobes (nth j (exec (init xs) ops1) dlink) <= 1.
+Proof.
+  intros xs ops1 ops2 j Hx Hj Hr. pose proof (probe_rate_window xs ops1 ops2 j Hx Hj) as H.
+  cbn zeta in H. lia.
+Qed.
+
+Lemma short_sends_complete : forall total orc, 0 <= total -> Forall positive orc ->
+  send_all (S (Z.to_nat total)) total 0 orc = (total, true).
+Proof. intros total orc Ht Hp. apply send_all_positive; [exact Hp|lia|lia]. Qed.
